@@ -79,7 +79,8 @@ class Interp:
         # bytes fed in between (an error reported after an acknowledgement was fed — e.g. for the PUBREL phase of a QoS 2
         # publish — belongs to an operation that DID reach the wire).
         self.refused = set()
-        held, start, fed = set(), {}, {}
+        import bisect
+        held, start, feeds = set(), {}, []
         for si, (line, obs) in enumerate(segs):
             t = line.split(' ') if line else []
             if t[:1] == ['HOLD']:
@@ -93,14 +94,14 @@ class Interp:
             elif t[:1] == ['OP'] and f'op{t[1]}' not in held:
                 start[int(t[1])] = si
             elif t[:1] == ['FEED']:
-                for k in start:
-                    if start[k] < si:
-                        fed[k] = True
+                feeds.append(si)
             for o in obs:
                 ot = o.split(' ')
                 if ot[0] == 'DONE' and len(ot) >= 4 and ot[2] == 'err' and ot[3] in ('QuotaExceeded', 'MaximumPacketSizeExceeded', 'CodecError'):
                     k = int(ot[1][2:])
-                    if not fed.get(k):
+                    st = start.get(k, -1)
+                    j = bisect.bisect_right(feeds, st)          # first FEED segment after the operation's first poll
+                    if not (j < len(feeds) and feeds[j] <= si):
                         self.refused.add(k)
         self.run()
 
